@@ -177,6 +177,8 @@ impl Checker {
         crate::oracle2::c12_check(self, sim, true);
         crate::oracle2::c07_on_boot(self, sim);
         crate::oracle2::c11_on_boot(self, sim);
+        self.c18.pool.clear();
+        self.c18.used.clear();
     }
 
     pub fn on_crash_restart(&mut self, sim: &mut Sim) {
